@@ -503,6 +503,11 @@ def run(tier):
                           budget=1 if quick else 6, n_codegen=0,
                           n_run=1 if quick else 6, only_run=True, rich=True,
                           flavour='plain', timeout=3000))
+        # ... and the default vector (inviscid, no damping) with a solid
+        items.append(dict(seed=seed, scheme=n, dim=2, solids=True,
+                          budget=1 if quick else 6, n_codegen=0,
+                          n_run=1 if quick else 6, only_run=True,
+                          flavour='plain', timeout=3000))
     for n in names:
         for dim in (1, 2, 3):
             for solids in (False, True):
